@@ -140,7 +140,12 @@ fn small_list_op(rng: &mut Rng, tag: i64) -> Op {
         20 => Op::SwapWith(vec![tag, 7]),
         21 => Op::AddAll(1000),
         22 => Op::GetIdx(rng.below(4)),
-        23 => Op::SnapVia(*rng.pick(&["copy", "deep_copy", "display", "debug", "concat", "slice"])),
+        23 => match rng.below(4) {
+            0 => Op::LastVia(*rng.pick(&["match", "arg"])),
+            1 => if rng.chance(1, 2) { Op::TailVia } else { Op::InitVia },
+            2 => Op::FirstVia("match"),
+            _ => Op::SnapVia(*rng.pick(&["copy", "deep_copy", "display", "debug", "concat", "slice"])),
+        },
         _ => Op::Snap,
     }
 }
@@ -772,4 +777,169 @@ fn retain_value_history(rounds: usize) -> Stress {
         rewrite: None,
         delays: vec![],
     }
+}
+
+// ---- reads through the VM's instruction paths against push/pop writers (large histories) -------
+
+/// init = [1..=8]; writers alternate push(tag) / pop, so the list always has at least its 8 initial
+/// elements and never holds null; readers use index, unpacking / match patterns, slices, `for`.
+fn gen_vm_reads(rng: &mut Rng, n_threads: usize, k: usize) -> Stress {
+    let mut progs = vec![];
+    let readers = (n_threads / 2).max(1);
+    for t in 0..n_threads {
+        let mut p = vec![];
+        if t < readers {
+            for _ in 0..k {
+                p.push(match rng.weighted(&[10, 8, 3, 3, 2, 3, 2, 2, 3, 3, 3, 3, 2, 1]) {
+                    0 => Op::LastVia("match"),
+                    1 => Op::LastVia("arg"),
+                    2 => Op::FirstVia("match"),
+                    3 => Op::Last,
+                    4 => Op::First,
+                    5 => Op::GetIdx(rng.below(8)),
+                    6 => Op::Get(rng.below(8)),
+                    7 => Op::Size,
+                    8 => Op::SnapVia(*rng.pick(&["slice", "display", "copy", "concat"])),
+                    9 => Op::TailVia,
+                    10 => Op::InitVia,
+                    11 => Op::Collect(*rng.pick(&["for", "iter", "unpack"])),
+                    12 => Op::Snap,
+                    _ => Op::Contains(3),
+                });
+            }
+        } else {
+            let mut c = 0i64;
+            for j in 0..k {
+                if j % 2 == 0 {
+                    c += 1;
+                    p.push(Op::Push((t as i64 + 1) * TAG + c));
+                } else {
+                    p.push(Op::Pop);
+                }
+            }
+        }
+        progs.push(p);
+    }
+    Stress { kind: "vm-reads", init: St::L((1..=8).collect()), progs, rounds: 1, rewrite: None, delays: vec![] }
+}
+
+fn check_vm_reads(s: &Stress, threads: &[Vec<String>], fin: &str) -> Result<Value, String> {
+    let init: Vec<i64> = (1..=8).collect();
+    let mut tags: HashSet<i64> = HashSet::new();
+    let mut writers = 0i64;
+    for p in &s.progs {
+        let mut w = false;
+        for o in p {
+            if let Op::Push(x) = o {
+                tags.insert(*x);
+                w = true;
+            }
+        }
+        writers += w as i64;
+    }
+    let int_of = |r: &str| -> Option<i64> { r.strip_prefix('i').and_then(|x| x.parse().ok()) };
+    // a snapshot-like value: `skip` initial elements dropped at the front, at least `min` entries
+    let seq_ok = |v: &[i64], skip: usize, min: usize| -> Result<(), String> {
+        if v.len() < min {
+            return Err(format!("only {} entries, the list never has fewer than {}", v.len(), min));
+        }
+        let head = &init[skip..];
+        let n = head.len().min(v.len());
+        if v[..n] != head[..n] {
+            return Err("the initial elements are not in place".into());
+        }
+        let mut seen = HashSet::new();
+        for x in &v[n..] {
+            if !tags.contains(x) || !seen.insert(*x) {
+                return Err(format!("entry {} was never pushed (or appears twice)", x));
+            }
+        }
+        Ok(())
+    };
+    let mut popped: HashSet<i64> = HashSet::new();
+    let mut last_was_tag = 0u64;
+    for (t, (p, rs)) in s.progs.iter().zip(threads).enumerate() {
+        if p.len() != rs.len() {
+            return Err(format!("thread {} returned {} results for {} operations", t, rs.len(), p.len()));
+        }
+        for (j, (o, r)) in p.iter().zip(rs).enumerate() {
+            let at = |why: &str| format!("thread {} op {} {:?} [{}] -> {}: {}", t, j, o, o.koto().trim().replace('\n', " / "), r.chars().take(200).collect::<String>(), why);
+            match o {
+                Op::LastVia(_) | Op::Last => match int_of(r) {
+                    None => return Err(at("the list is never empty and never holds null: the value is not the last element of any state")),
+                    Some(v) => {
+                        if v != 8 && !tags.contains(&v) {
+                            return Err(at("not the last element of any state (last is 8 or a pushed tag)"));
+                        }
+                        last_was_tag += (v != 8) as u64;
+                    }
+                },
+                Op::FirstVia(_) | Op::First => {
+                    if int_of(r) != Some(1) {
+                        return Err(at("the first element is always 1"));
+                    }
+                }
+                Op::GetIdx(i) | Op::Get(i) => {
+                    if int_of(r) != Some(init[*i]) {
+                        return Err(at("the initial elements never move"));
+                    }
+                }
+                Op::Size => {
+                    let v = int_of(r).ok_or_else(|| at("unreadable"))?;
+                    if v < 8 || v > 8 + writers {
+                        return Err(at("size outside the reachable range"));
+                    }
+                }
+                Op::Snap | Op::SnapVia(_) => {
+                    let v = parse_ints(r).ok_or_else(|| at("unreadable"))?;
+                    seq_ok(&v, 0, 8).map_err(|e| at(&e))?;
+                }
+                Op::TailVia => {
+                    let v = parse_ints(r).ok_or_else(|| at("unreadable"))?;
+                    seq_ok(&v, 1, 7).map_err(|e| at(&e))?;
+                }
+                Op::InitVia => {
+                    let v = parse_ints(r).ok_or_else(|| at("unreadable"))?;
+                    seq_ok(&v, 0, 7).map_err(|e| at(&e))?;
+                }
+                Op::Collect(f) => {
+                    let v = parse_ints(r).ok_or_else(|| at("unreadable (a null or a foreign value was seen)"))?;
+                    if *f == "unpack" {
+                        if v != vec![1, 2] {
+                            return Err(at("a, b = c must give 1, 2"));
+                        }
+                    } else {
+                        // several guards: every value seen must be explained by some state
+                        seq_ok(&v, 0, 8).map_err(|e| at(&e))?;
+                    }
+                }
+                Op::Contains(_) => {
+                    if r != "b1" {
+                        return Err(at("3 is always in the list"));
+                    }
+                }
+                Op::Push(_) => {
+                    if r != "u" {
+                        return Err(at("push failed"));
+                    }
+                }
+                Op::Pop => {
+                    let v = int_of(r).ok_or_else(|| at("pop of a list that always has a pushed element of this thread or more returned null"))?;
+                    if !tags.contains(&v) {
+                        return Err(at("popped one of the initial elements or a value nobody pushed"));
+                    }
+                    if !popped.insert(v) {
+                        return Err(at("the same element was popped twice"));
+                    }
+                }
+                _ => {}
+            }
+        }
+    }
+    let f = parse_ints(fin).ok_or_else(|| format!("final unreadable {}", fin))?;
+    seq_ok(&f, 0, 8).map_err(|e| format!("final contents: {}", e))?;
+    if f.len() - 8 + popped.len() != tags.len() {
+        return Err(format!("lost update: {} pushes, {} popped + {} remaining", tags.len(), popped.len(), f.len() - 8));
+    }
+    Ok(json!({"last_was_a_pushed_tag": last_was_tag}))
 }
